@@ -41,7 +41,11 @@ def gen_workspace(r, widx):
     for b in bps:
         if comps and r.random() < 0.35:
             b["dir"] = "%s/nested/%s" % (r.choice(comps)["dir"], b["crate"])
-    return {"idx": widx, "bps": bps, "comps": comps, "foreign": r.random() < 0.6}
+    # where cargo puts its artifacts: the default, CARGO_TARGET_DIR pointing outside the workspace, or [build] target-dir in .cargo/config.toml
+    return {"idx": widx, "bps": bps, "comps": comps, "foreign": r.random() < 0.6, "target_mode": r.choice(["default", "default", "unset", "env-elsewhere", "config"])}
+
+
+TARGET_OF = {}      # workspace root -> (mode, absolute target dir)
 
 
 def write_workspace(root, ws):
@@ -49,7 +53,13 @@ def write_workspace(root, ws):
     with open(os.path.join(root, "Cargo.toml"), "w") as f:
         f.write("[workspace]\nresolver = \"2\"\nmembers = [%s]\n" % ", ".join('"%s"' % b["dir"] for b in ws["bps"]))
     with open(os.path.join(root, ".ignore"), "w") as f:
-        f.write("target/\npackaged/\nout-custom/\n")
+        f.write("target/\npackaged/\nout-custom/\nbuild-out/\n")
+    mode = ws.get("target_mode", "default")
+    TARGET_OF[root] = (mode, {"env-elsewhere": root + "-artifacts", "config": os.path.join(root, "build-out")}.get(mode, os.path.join(root, "target")))
+    if mode == "config":
+        os.makedirs(os.path.join(root, ".cargo"))
+        with open(os.path.join(root, ".cargo", "config.toml"), "w") as f:
+            f.write('[build]\ntarget-dir = "build-out"\n')
     for b in ws["bps"]:
         d = os.path.join(root, b["dir"])
         os.makedirs(os.path.join(d, "src", "bin"))
@@ -106,7 +116,12 @@ def run_package(cargo_libcnb, root, cwd, profile, package_dir=None, extra_env=No
     if package_dir:
         args += ["--package-dir", package_dir]
     env = dict(os.environ)
-    env.update({"CARGO": shutil.which("cargo"), "CARGO_NET_OFFLINE": "true", "CARGO_TERM_COLOR": "never", "CARGO_TARGET_DIR": os.path.join(root, "target")})
+    env.update({"CARGO": shutil.which("cargo"), "CARGO_NET_OFFLINE": "true", "CARGO_TERM_COLOR": "never"})
+    mode, tdir = TARGET_OF.get(root, ("default", os.path.join(root, "target")))
+    env.pop("CARGO_TARGET_DIR", None)
+    env.pop("CARGO_BUILD_TARGET_DIR", None)
+    if mode in ("default", "env-elsewhere"):
+        env["CARGO_TARGET_DIR"] = tdir
     env.pop("RUSTFLAGS", None)
     env.pop("CI", None)
     if extra_env:
@@ -130,7 +145,7 @@ def expected_tree(ws, root, selected_ids, profile, pdir):
         out[d.encode()] = ("d",)
         out[(d + "/buildpack.toml").encode()] = ("f", open(os.path.join(root, x["dir"], "buildpack.toml"), "rb").read())
         if x["kind"] == "libcnb":
-            tdir = os.path.join(root, "target", TRIPLE, prof)
+            tdir = os.path.join(TARGET_OF.get(root, ("default", os.path.join(root, "target")))[1], TRIPLE, prof)
             out[(d + "/bin").encode()] = ("d",)
             out[(d + "/bin/build").encode()] = ("f", open(os.path.join(tdir, x["main_bin"]), "rb").read())
             out[(d + "/bin/detect").encode()] = ("l", b"build")
@@ -296,7 +311,8 @@ def scenario(arg):
     root = os.path.join(work, "ws%d" % widx)
     write_workspace(root, ws)
     case = {"workspace": widx, "shape": {"libcnb": [(b["id"], b["extra_bins"]) for b in ws["bps"]], "composites": [(c["id"], c["deps"]) for c in ws["comps"]]}}
-    shape = (len(ws["bps"]), sum(len(b["extra_bins"]) for b in ws["bps"]), len(ws["comps"]), ws["foreign"])
+    shape = (len(ws["bps"]), sum(len(b["extra_bins"]) for b in ws["bps"]), len(ws["comps"]), ws["foreign"], ws.get("target_mode", "default"))
+    sh.add("target_dir_modes", ws.get("target_mode", "default"))
     try:
         all_ids = [x["id"] for x in ws["bps"] + ws["comps"]]
         # (a) clean runs: root/dev into the default dir, one buildpack dir, release into a custom dir
@@ -393,6 +409,7 @@ def scenario(arg):
                    "observed": "exit 0, stdout = selected dirs, package tree == specification == clean tree"}, cap=1)
     finally:
         vp.rmtree(root)
+        vp.rmtree(root + "-artifacts")
     return sh.dict()
 
 
